@@ -514,7 +514,12 @@ def RANDBETWEEN(bottom, top):
     if utils.any_is_error((bottom, top)):
         return error.VALUE
 
-    return random.randint(int(bottom), int(top))
+    # the integers of [bottom, top]: round the bounds inwards
+    bottom = int(math.ceil(bottom))
+    top = int(math.floor(top))
+    if bottom > top:
+        return error.NUM
+    return random.randint(bottom, top)
 
 
 @dispatcher.register_for('INT')
